@@ -1,0 +1,65 @@
+//go:build verif
+// +build verif
+
+package anndb
+
+import (
+	"github.com/marekgalovic/anndb/cluster"
+	"github.com/marekgalovic/anndb/storage"
+	"github.com/marekgalovic/anndb/storage/raft"
+
+	badger "github.com/dgraph-io/badger/v2"
+	"google.golang.org/grpc"
+)
+
+// Simulation hooks (build tag "verif"): run the real setup() wiring without a
+// TCP listener and expose the wired components to the harness in /verif.
+
+var verifNoListen bool = true
+
+var verifTransports = make(map[*Server]*raft.RaftTransport)
+
+func (this *Server) verifFinishSetup(raftTransport *raft.RaftTransport) error {
+	this.grpcServer = grpc.NewServer()
+	verifTransportsMu.Lock()
+	verifTransports[this] = raftTransport
+	verifTransportsMu.Unlock()
+	return nil
+}
+
+type VerifParts struct {
+	DB             *badger.DB
+	ClusterConn    *cluster.Conn
+	Allocator      *storage.Allocator
+	ZeroGroup      *raft.RaftGroup
+	DatasetManager *storage.DatasetManager
+	NodesManager   *raft.NodesManager
+	RaftTransport  *raft.RaftTransport
+	NodeId         uint64
+}
+
+// VerifSetup runs setup() (which stops before net.Listen under this tag).
+func (this *Server) VerifSetup() error { return this.setup() }
+
+func (this *Server) VerifParts() *VerifParts {
+	verifTransportsMu.Lock()
+	t := verifTransports[this]
+	verifTransportsMu.Unlock()
+	return &VerifParts{
+		DB:             this.db,
+		ClusterConn:    this.clusterConn,
+		Allocator:      this.allocator,
+		ZeroGroup:      this.zeroGroup,
+		DatasetManager: this.datasetManager,
+		NodesManager:   this.nodesManager,
+		RaftTransport:  t,
+		NodeId:         this.config.RaftNodeId,
+	}
+}
+
+// VerifForget drops the harness bookkeeping for a server.
+func (this *Server) VerifForget() {
+	verifTransportsMu.Lock()
+	delete(verifTransports, this)
+	verifTransportsMu.Unlock()
+}
